@@ -430,6 +430,7 @@ class Interpreter(BaseInterpreter[TContext, TEvent]):
             while self.status == "running":
                 # 📬 Wait indefinitely for the next event from the queue.
                 event = await self._event_queue.get()
+                was_self_raised = id(event) in self._self_raised
                 self._self_raised.discard(id(event))
 
                 if self._raise_depth > limit:
@@ -442,7 +443,6 @@ class Interpreter(BaseInterpreter[TContext, TEvent]):
                         self.id,
                     )
                     self._raise_depth = 0
-                    self._event_queue.task_done()
                     # 🧹 Purge the REST of the runaway chain too. Dropping only
                     #    this one event is enough for a chain that raises once
                     #    per step, but with a fan-out of two or more (an entry
@@ -460,7 +460,13 @@ class Interpreter(BaseInterpreter[TContext, TEvent]):
                     self._self_raised.clear()
                     for queued in kept:
                         self._event_queue.put_nowait(queued)
-                    continue
+                    if was_self_raised:
+                        # The event in hand is a member of the chain: drop it.
+                        self._event_queue.task_done()
+                        continue
+                    # 📨 Otherwise it was sent from OUTSIDE: it is not part of
+                    #    the runaway chain and must not be dropped with it -
+                    #    fall through and process it like any other event.
 
                 logger.debug(
                     "🔥 Event '%s' dequeued for processing in '%s'.",
